@@ -505,3 +505,146 @@ mod tests {
         assert!(buffer.is_empty());
     }
 }
+
+/// Verification hooks (compiled only with `--cfg libp2p_verif`): a public mirror of the
+/// private [`State`] and thin wrappers that call its methods.
+#[cfg(libp2p_verif)]
+pub mod verif_hooks {
+    use super::*;
+
+    #[derive(Debug, Copy, Clone, PartialEq, Eq)]
+    pub enum StateRepr {
+        Open,
+        ReadClosed,
+        WriteClosed,
+        ClosingRead { write_closed: bool, message_sent: bool },
+        ClosingWrite { read_closed: bool, message_sent: bool },
+        BothClosed { reset: bool },
+    }
+
+    #[derive(Debug, Copy, Clone, PartialEq, Eq)]
+    pub enum InboundFlag {
+        Fin,
+        StopSending,
+        Reset,
+    }
+
+    fn closing(message_sent: bool) -> Closing {
+        if message_sent {
+            Closing::MessageSent
+        } else {
+            Closing::Requested
+        }
+    }
+
+    fn sent(c: Closing) -> bool {
+        matches!(c, Closing::MessageSent)
+    }
+
+    pub struct Machine(State);
+
+    impl Machine {
+        pub fn new(repr: StateRepr) -> Self {
+            Machine(match repr {
+                StateRepr::Open => State::Open,
+                StateRepr::ReadClosed => State::ReadClosed,
+                StateRepr::WriteClosed => State::WriteClosed,
+                StateRepr::ClosingRead {
+                    write_closed,
+                    message_sent,
+                } => State::ClosingRead {
+                    write_closed,
+                    inner: closing(message_sent),
+                },
+                StateRepr::ClosingWrite {
+                    read_closed,
+                    message_sent,
+                } => State::ClosingWrite {
+                    read_closed,
+                    inner: closing(message_sent),
+                },
+                StateRepr::BothClosed { reset } => State::BothClosed { reset },
+            })
+        }
+
+        pub fn repr(&self) -> StateRepr {
+            match self.0 {
+                State::Open => StateRepr::Open,
+                State::ReadClosed => StateRepr::ReadClosed,
+                State::WriteClosed => StateRepr::WriteClosed,
+                State::ClosingRead {
+                    write_closed,
+                    inner,
+                } => StateRepr::ClosingRead {
+                    write_closed,
+                    message_sent: sent(inner),
+                },
+                State::ClosingWrite { read_closed, inner } => StateRepr::ClosingWrite {
+                    read_closed,
+                    message_sent: sent(inner),
+                },
+                State::BothClosed { reset } => StateRepr::BothClosed { reset },
+            }
+        }
+
+        /// Calls `State::handle_inbound_flag` with a read buffer that holds one byte iff
+        /// `buffered`; returns whether the buffer still holds data afterwards.
+        pub fn handle_inbound_flag(&mut self, flag: InboundFlag, buffered: bool) -> bool {
+            let mut buffer = if buffered {
+                Bytes::from_static(b"x")
+            } else {
+                Bytes::new()
+            };
+            let flag = match flag {
+                InboundFlag::Fin => Flag::Fin,
+                InboundFlag::StopSending => Flag::StopSending,
+                InboundFlag::Reset => Flag::Reset,
+            };
+            self.0.handle_inbound_flag(flag, &mut buffer);
+            !buffer.is_empty()
+        }
+
+        pub fn read_barrier(&self) -> Result<(), io::ErrorKind> {
+            self.0.read_barrier().map_err(|e| e.kind())
+        }
+
+        pub fn write_barrier(&self) -> Result<(), io::ErrorKind> {
+            self.0.write_barrier().map_err(|e| e.kind())
+        }
+
+        /// `Ok(Some(message_sent))` / `Ok(None)` / `Err(kind)`.
+        pub fn close_write_barrier(&mut self) -> Result<Option<bool>, io::ErrorKind> {
+            self.0
+                .close_write_barrier()
+                .map(|c| c.map(sent))
+                .map_err(|e| e.kind())
+        }
+
+        pub fn close_read_barrier(&mut self) -> Result<Option<bool>, io::ErrorKind> {
+            self.0
+                .close_read_barrier()
+                .map(|c| c.map(sent))
+                .map_err(|e| e.kind())
+        }
+
+        pub fn write_closed(&mut self) {
+            self.0.write_closed()
+        }
+
+        pub fn close_write_message_sent(&mut self) {
+            self.0.close_write_message_sent()
+        }
+
+        pub fn read_closed(&mut self) {
+            self.0.read_closed()
+        }
+
+        pub fn close_read_message_sent(&mut self) {
+            self.0.close_read_message_sent()
+        }
+
+        pub fn read_flags_in_async_write(&self) -> bool {
+            self.0.read_flags_in_async_write()
+        }
+    }
+}
